@@ -263,6 +263,7 @@ func checkC09(c *Check, p *Program) {
 		}
 	}
 
+	checkConfigNormalisers(c, p, "C09.H1", "TunnelConfig")
 	// ---- H3 success only by an OK response on the current channel
 	hn := FuncName(t.heartbeat)
 	var stateCall *ssa.Call
